@@ -155,6 +155,32 @@ def mk_exp(p):
     return Poly.atom(('exp', p.key()))
 
 
+def mk_bin(op, a, b):
+    """Elementwise maximum / minimum of two normal forms (commutative, idempotent, constants folded)."""
+    if a == b:
+        return a
+    ca, cb = a.const_value(), b.const_value()
+    if ca is not None and cb is not None:
+        return Poly.const(max(ca, cb) if op == 'maximum' else min(ca, cb))
+    ka, kb = sorted((a.key(), b.key()), key=repr)
+    return Poly.atom(('bin', op, ka, kb))
+
+
+def mk_where(cond, a, b):
+    if a == b:
+        return a
+    return Poly.atom(('where', cond, a.key(), b.key()))
+
+
+def _sub_polys(t):
+    """Component normal forms of a composite (bin / where) atom."""
+    if t[0] == 'bin':
+        return [Poly.from_key(t[2]), Poly.from_key(t[3])]
+    if t[0] == 'where':
+        return [Poly.from_key(t[1][1]), Poly.from_key(t[1][2]), Poly.from_key(t[2]), Poly.from_key(t[3])]
+    return []
+
+
 def mk_log(p):
     s = p.single()
     if s is not None:
@@ -184,6 +210,13 @@ def akind(a):
         return 'S'
     if t == 'call':
         return a[4]
+    if t in ('bin', 'where'):
+        k = 'S'
+        for q in _sub_polys(a):
+            kq = kind(q)
+            if _ORDER[kq] > _ORDER[k]:
+                k = kq
+        return k
     raise Unknown(None, f'unknown atom {a!r}')
 
 
@@ -232,6 +265,10 @@ def _d_atom(t, a, node):
         q = Poly.from_key(t[1])
         dq = partial(q, a, node)
         return None if dq.is_zero() else -(Poly.atom(t, 2) * dq)
+    if t[0] in ('bin', 'where'):
+        for q in _sub_polys(t):
+            if not partial(q, a, node).is_zero():
+                raise Unknown(node, 'derivative through maximum / minimum / where')
     return None
 
 
@@ -259,6 +296,9 @@ def row_atoms(p, acc=None):
                     acc.append(t)
             elif t[0] in ('exp', 'log', 'inv'):
                 row_atoms(Poly.from_key(t[1]), acc)
+            elif t[0] in ('bin', 'where'):
+                for q in _sub_polys(t):
+                    row_atoms(q, acc)
     return acc
 
 
@@ -323,6 +363,14 @@ def ev_atom(a, b):
         return np.log(ev_poly(Poly.from_key(a[1]), b))
     if t == 'inv':
         return 1.0 / np.asarray(ev_poly(Poly.from_key(a[1]), b), dtype=float)
+    if t == 'bin':
+        f = np.maximum if a[1] == 'maximum' else np.minimum
+        return f(ev_poly(Poly.from_key(a[2]), b), ev_poly(Poly.from_key(a[3]), b))
+    if t == 'where':
+        op, kl, kr = a[1]
+        l, r = ev_poly(Poly.from_key(kl), b), ev_poly(Poly.from_key(kr), b)
+        c = {'<': np.less, '<=': np.less_equal, '>': np.greater, '>=': np.greater_equal}[op](l, r)
+        return np.where(c, ev_poly(Poly.from_key(a[2]), b), ev_poly(Poly.from_key(a[3]), b))
     if t in ('red', 'dext'):
         _, op, key, axis = a
         x = np.asarray(ev_poly(Poly.from_key(key), b), dtype=float)
@@ -373,6 +421,11 @@ def show_atom(a, depth=0):
         return f'{t}({show(Poly.from_key(a[1]), depth)})'
     if t == 'red':
         return f'{a[1]}[{a[3]}]({show(Poly.from_key(a[2]), depth)})'
+    if t == 'bin':
+        return f'{a[1]}({show(Poly.from_key(a[2]), depth)}, {show(Poly.from_key(a[3]), depth)})'
+    if t == 'where':
+        return (f'where({show(Poly.from_key(a[1][1]), depth)} {a[1][0]} {show(Poly.from_key(a[1][2]), depth)}, '
+                f'{show(Poly.from_key(a[2]), depth)}, {show(Poly.from_key(a[3]), depth)})')
     if t == 'dext':
         return f'd{a[1]}[{a[3]}]({show(Poly.from_key(a[2]), depth)})'
     if t == 'n':
@@ -406,6 +459,13 @@ class Obj:
         self.tag, self.data = tag, data
 
 
+class Cond:
+    """Elementwise comparison of two numbers (only usable as the condition of where)."""
+
+    def __init__(self, op, l, r, shape):
+        self.key, self.shape = (op, l.p.key(), r.p.key()), shape
+
+
 class Const:
     """Non-numeric constant (str / None / bool)."""
 
@@ -414,6 +474,7 @@ class Const:
 
 
 NUMPY_MODS = ('numpy', 'jax.numpy')
+_CMP = {ast.Lt: '<', ast.LtE: '<=', ast.Gt: '>', ast.GtE: '>='}
 
 
 def _join(s1, s2, node):
@@ -617,6 +678,11 @@ class Interp:
             return self.binop(e.op, self.eval(e.left, env, fn), self.eval(e.right, env, fn), e)
         if isinstance(e, ast.IfExp):
             return self.eval(e.body if self.truth(e.test, env, fn) else e.orelse, env, fn)
+        if isinstance(e, ast.Compare) and len(e.ops) == 1 and type(e.ops[0]) in _CMP:
+            l, r = self.eval(e.left, env, fn), self.eval(e.comparators[0], env, fn)
+            if isinstance(l, Num) and isinstance(r, Num):
+                return Cond(_CMP[type(e.ops[0])], l, r, _join(l.shape, r.shape, e))
+            raise Unknown(e, 'comparison of non-numbers')
         if isinstance(e, ast.Attribute):
             return self.attribute(e, env, fn)
         if isinstance(e, ast.Subscript):
@@ -856,6 +922,28 @@ class Interp:
             if name == 'atleast_1d' and x.shape in ('S', 'A'):
                 raise Unknown(node, 'atleast_1d of a scalar')
             return x
+        if name in ('maximum', 'minimum', 'fmax', 'fmin') and len(args) == 2 and not kw and \
+                all(isinstance(x, Num) for x in args):
+            op = 'maximum' if name in ('maximum', 'fmax') else 'minimum'
+            return Num(mk_bin(op, args[0].p, args[1].p), _join(args[0].shape, args[1].shape, node))
+        if name == 'clip' and args and isinstance(args[0], Num):
+            names = ('a_min', 'a_max') if ('a_min' in kw or 'a_max' in kw) else ('min', 'max')
+            if set(kw) - set(names) or len(args) > 3:
+                raise Unknown(node, 'clip arguments')
+            lo = args[1] if len(args) > 1 else kw.get(names[0])
+            hi = args[2] if len(args) > 2 else kw.get(names[1])
+            r = args[0]
+            for bound, op in ((lo, 'maximum'), (hi, 'minimum')):
+                if bound is None or (isinstance(bound, Const) and bound.v is None):
+                    continue
+                if not isinstance(bound, Num):
+                    raise Unknown(node, 'clip bound')
+                r = Num(mk_bin(op, r.p, bound.p), _join(r.shape, bound.shape, node))
+            return r
+        if name == 'where' and len(args) == 3 and not kw and isinstance(args[0], Cond) and \
+                isinstance(args[1], Num) and isinstance(args[2], Num):
+            shp = _join(_join(args[0].shape, args[1].shape, node), args[2].shape, node)
+            return Num(mk_where(args[0].key, args[1].p, args[2].p), shp)
         if name in ('add', 'subtract', 'multiply', 'divide', 'true_divide') and len(args) == 2 and not kw:
             op = {'add': ast.Add(), 'subtract': ast.Sub(), 'multiply': ast.Mult()}.get(name, ast.Div())
             return self.binop(op, args[0], args[1], node)
